@@ -487,7 +487,7 @@ class TimeDeltaUnmarshaller(AbstractUnmarshaller[TimeDeltaT], tp.Generic[TimeDel
             val: The input value to unmarshal.
         """
         if isinstance(val, (int, float)):
-            return self.t(seconds=int(val))
+            return self.t(seconds=val)
 
         decoded = serdes.decode(val)
         td: datetime.timedelta = (
@@ -499,7 +499,13 @@ class TimeDeltaUnmarshaller(AbstractUnmarshaller[TimeDeltaT], tp.Generic[TimeDel
         if td.__class__ is self.t:
             return td  # type: ignore[return-value]
 
-        return self.t(seconds=td.total_seconds())
+        # Whole microseconds, by exact integer arithmetic: `total_seconds()` is a float
+        #   and loses microseconds on long durations.
+        return self.t(
+            microseconds=datetime.timedelta.__floordiv__(
+                td, datetime.timedelta(microseconds=1)
+            )
+        )
 
 
 UUIDT = tp.TypeVar("UUIDT", bound=uuid.UUID)
